@@ -224,6 +224,25 @@ def datavolume_cases(ctx):
     return cs
 
 
+def alloc_convert_cases(ctx):
+    """Portions of allocations of DataVolume amounts (quantized, dispersal adjusts portions in place), then converted
+    to every other unit, divided by a unit, compared with an equal quantity in another unit (C20 / C04 / C06)."""
+    tab = table()
+    dv = [u['s'] for u in tab if u['t'] == 'DataVolume']
+    cs = []
+    k = 0
+    for u in dv:
+        for ratios in ([[38, 1], [5, 1], [2, 1], [15, 1]], [[1, 1], [1, 1], [1, 1]], [[1, 3], [1, 7]]):
+            for idx in range(len(ratios) + 1):
+                k += 1
+                if ctx.tier == 'quick' and k % 2:
+                    continue
+                v = dv[(k * 5) % len(dv)]
+                cs.append(dict(op='AllocConvert', x=q(u, 10), ratios=ratios, idx=idx, to=v))
+                cs.append(dict(op='AllocDiv', x=q(u, 10), ratios=ratios, idx=idx, to='B'))
+    return cs
+
+
 def replay(ctx, rp):
     r = rp['replay']
     if r.get('kind') == 'bcalc-plain':
